@@ -1,12 +1,12 @@
 /-
 C07 - the read arithmetic of the header stores in terms of the functions the CODE defines
 (`FetchHeaderAncestors` of both stores, `readHeadersFromFile`; translated from headerfs/store.go and
-file.go on every run, Gen/Trans.lean), against the store model `C07_ancestors` is about.
+file.go on every run, Gen/TransStore.lean), against the store model `C07_ancestors` is about.
 -/
 import Neutrino.Props.C07
 import Neutrino.Lemmas.TransStore
 namespace Neutrino.Store
-open Neutrino.Gen.Trans Neutrino.GoInt
+open Neutrino.Gen.TransStore Neutrino.GoInt
 
 /-- **`blockHeaderStore.FetchHeaderAncestors` as the code spells it is the model's
 `fetchAncestors`** over the durable state (index lookup and range read of that state), for every
